@@ -18,7 +18,8 @@ RULE = ("cases are (tree, operation) pairs: generator-valid EML trees, mutated t
         "both modes, evaluate.node/tree, metapype_io.to_json/to_xml(skip_ns F/T)/graph, mp_io.to_json/objectify/graph, export.to_xml, "
         "all find_* queries, get_ancestry, child_index, list_attributes, attribute_value, str, repr, Rule.child_insert_index, "
         "Rule.is_allowed_child, Node.is_equal) runs once under the snapshot contract and once more in a random order with result "
-        "comparison. distinct = distinct (tree value, operation); non-trivial = all")
+        "comparison. distinct = distinct (tree value, operation); non-trivial = all"
+        ". Also: trees with a past (a node listed by two parents, nodes taken out of the registry, ids resolving to another import), inline markup in text elements, every spelling of the ORCID directory, attribute values that are not text, a chain deeper than the recursion limit; the witness is the tree before the operations")
 ASSUMPTIONS = [
     "operations that raise (rule errors on invalid trees, anything else on broken code) are still subject to the contract",
     "results are compared structurally: strings, booleans, indices, node lists as pre-order positions, error lists as (code, message, "
